@@ -2,10 +2,14 @@
 From Coq Require Extraction ExtrOcamlBasic.
 From Coq Require Import ZArith List.
 From Flocq Require Import BinarySingleNaN.
-From CanVerif Require Import Can.Data Descriptor.Types Descriptor.Physical Gen.Message Gen.History Gen.HistoryPhys Gen.ClassCheck Gen.Api.
+From CanVerif Require Import Can.Data Descriptor.Types Descriptor.Physical Gen.Message Gen.History Gen.HistoryPhys Gen.ClassCheck Gen.Api Gen.Wiring.
 Extraction Language OCaml.
 Extraction "model.ml"
   frame_of unmarshal reset_state copy_from dispatch raw_set raw_set_value step frame_valid inv in_range
   signal_super_type signal_prim_type read_field write_field mux_index raw_lo raw_hi
   phys_set phys_set_value phys_okb phys_get getter_physical bits_of_f64 has_physical in_theorem_class
+  wiring_ok_c03 decls_ok frame_wiring_ok unmarshal_wiring_ok resolve_stmt resolve_ustmt demanded_body demanded_unmarshal
+  wiring_ok_c10 reset_wiring_ok setters_wiring_ok getters_wiring_ok resolve_reset resolve_setter resolve_getter
+  demanded_reset demanded_setters demanded_getters rstmt_eqb rsetter_eqb rgetter_eqb setter_side_ok
+  super_conv field_conv mstmt_eqb ustmt_eqb frame_side_ok guard_side_ok fields_ok descs_ok
   Z.add Z.mul Z.sub Z.ltb Z.leb Z.eqb Z.of_nat Z.to_nat Z.pow Z.modulo Z.div Z.land Z.lor.
